@@ -181,18 +181,17 @@ func structFieldFor(d *DV, key string) *DF {
 	return nil
 }
 
-func holderFor(d *DV, name string) (*DF, int) {
-	var found *DF
-	n := 0
+// holdersFor lists the `json:"-"` members that can be the holder of the fragment `name`: the member
+// named like it, or — when that Go name was taken — like it with underscores appended.
+func holdersFor(d *DV, name string) []*DF {
+	var out []*DF
 	for i := range d.F {
-		if d.F[i].HasTag && d.F[i].Tag == "-" && strings.EqualFold(d.F[i].N, name) {
-			if found == nil {
-				found = &d.F[i]
-			}
-			n++
+		f := &d.F[i]
+		if f.HasTag && f.Tag == "-" && len(f.N) >= len(name) && strings.EqualFold(f.N[:len(name)], name) && strings.Trim(f.N[len(name):], "_") == "" {
+			out = append(out, f)
 		}
 	}
-	return found, n
+	return out
 }
 
 // ---- the leaf oracle: every selected leaf of the response is held by the decoded value -------------
@@ -352,29 +351,51 @@ func (lc *leafChecker) object(parent string, sels []Sel, j *JV, d *DV, path stri
 			if concrete == "" || !contains(lc.spec.Possible(cond), concrete) {
 				continue // the fragment does not apply to this object: nothing is demanded
 			}
-			h, n := holderFor(d, name)
-			if h == nil {
+			cands := holdersFor(d, name)
+			if len(cands) == 0 {
 				lc.fail(path, "the fragment %q applies to this %s but the struct has no holder for it (struct has %s)", name, concrete, fieldNames(d))
 				continue
 			}
-			if n > 1 {
-				lc.fail(path, "several holders named like %q", name)
-				continue
+			// several members can be named like the fragment (`Alpha`, `Alpha_`): the fragment's leaves must be
+			// held by one of them
+			var firstErrs []string
+			ok := false
+			for _, h := range cands {
+				sub := &leafChecker{spec: lc.spec, doc: lc.doc}
+				hv := &h.V
+				switch {
+				case hv.K == "nil":
+					sub.fail(path, "the fragment %q applies to this %s but its holder %s is nil", name, concrete, h.N)
+				default:
+					if hv.K == "ptr" {
+						hv = hv.V
+					}
+					if hv.K != "struct" {
+						sub.fail(path, "holder %s is %s", h.N, hv.brief())
+					} else {
+						sub.object(cond, body, j, hv, path+"<"+name+">")
+					}
+				}
+				if len(sub.errs) == 0 {
+					ok = true
+					lc.frags++
+					lc.leaves += sub.leaves
+					lc.nulls += sub.nulls
+					lc.lists += sub.lists
+					lc.frags += sub.frags
+					break
+				}
+				if firstErrs == nil {
+					firstErrs = sub.errs
+				}
 			}
-			hv := &h.V
-			if hv.K == "nil" {
-				lc.fail(path, "the fragment %q applies to this %s but its holder %s is nil", name, concrete, h.N)
-				continue
+			if !ok {
+				for _, e := range firstErrs {
+					if len(lc.errs) < 5 {
+						lc.errs = append(lc.errs, e)
+					}
+				}
 			}
-			if hv.K == "ptr" {
-				hv = hv.V
-			}
-			if hv.K != "struct" {
-				lc.fail(path, "holder %s is %s", h.N, hv.brief())
-				continue
-			}
-			lc.frags++
-			lc.object(cond, body, j, hv, path+"<"+name+">")
 		}
 	}
 }
